@@ -25,7 +25,7 @@ vars == <<l, st, nviol, cov>>
 
 ToSets(ss) == [ i \in DOMAIN ss |-> Range(ss[i]) ]
 
-St0 == [ scn |-> "", n |-> 0, reads |-> <<>>, writes |-> <<>>, ue |-> <<>>, calls |-> <<>>,
+St0 == [ scn |-> "", n |-> 0, reads |-> <<>>, writes |-> <<>>, ue |-> <<>>,
          hasBuilt |-> FALSE, built |-> <<>>, E |-> {},
          conf |-> FALSE,                  \* the declarations contain a conflicting pair
          multi |-> FALSE,                 \* more than one run in this scenario: keep per-run observation sequences
@@ -40,11 +40,13 @@ St0 == [ scn |-> "", n |-> 0, reads |-> <<>>, writes |-> <<>>, ue |-> <<>>, call
 (* fingerprinting linear in the trace.                                      *)
 (***************************************************************************)
 D == TLCGet(2)
-D0 == [C |-> {}, UC |-> {}, PM |-> <<>>, SM |-> <<>>]
+UD == TLCGet(3)                   \* descendant map of the accepted user edges (Build!ApplyEdgeD)
+D0 == [C |-> <<>>, UC |-> <<>>, PM |-> <<>>, SM |-> <<>>]
 DerivedOf(s, e) ==
   LET n == s.n
       E == PairsOfSeq(e.edges)
-  IN [ C  |-> ClosureAny(n, E), UC |-> ClosureAny(n, PairsOfSeq(s.ue)),
+      ud == UD
+  IN [ C  |-> ReachAny(n, E), UC |-> ud,
        PM |-> [f \in 1..n |-> Preds(E, f)], SM |-> [f \in 1..n |-> Succs(E, f)] ]
 
 Run0(e) == [ cfg |-> e, started |-> <<>>, ended |-> {}, failed |-> {}, failedSeq |-> <<>>,
@@ -81,15 +83,13 @@ OnReset(s, e) ==
 OnAddFn(s, e) == [ st |-> s, v |-> If(e.id = e.want, "C11", "add_fn returned another id") ]
 
 OnAddEdge(s, e) ==
-  LET r == ApplyEdge(s.n, s.ue, e.a, e.b, e.kind) IN
-  [ st |-> [s EXCEPT !.ue = r.ue,
-                     !.calls = Append(@, [op |-> "edge", kind |-> e.kind, a |-> e.a, b |-> e.b])],
+  LET r == ApplyEdgeD(s.n, s.ue, UD, e.a, e.b, e.kind) IN
+  [ st |-> [s EXCEPT !.ue = r.ue], ud |-> r.D,
     v  |-> If(C16_Result(e.res, r.res), "C16", "add_edge result") ]
 
 OnAddEdges(s, e) ==
-  LET r == ApplyEdges(s.n, s.ue, e.pairs, e.kind) IN
-  [ st |-> [s EXCEPT !.ue = r.ue,
-                     !.calls = Append(@, [op |-> "edges", kind |-> e.kind, pairs |-> e.pairs])],
+  LET r == ApplyEdgesD(s.n, s.ue, UD, e.pairs, e.kind) IN
+  [ st |-> [s EXCEPT !.ue = r.ue], ud |-> r.D,
     v  |-> If(C16_Result(e.res, r.res), "C16", "add_edges result") ]
 
 OnBuild(s, e) ==
@@ -115,7 +115,7 @@ OnBuild(s, e) ==
           \o If(C01_ConflictOrdered(n, s.reads, s.writes, C), "C11", "conflicting pair not joined by a path")
           \o If(C06_DataOnlyForConflict(built, s.ue, s.reads, s.writes), "C06", "extra edge without conflict")
           \o If(C12_Direction(n, s.reads, s.writes, UC, C, rank), "C12", "direction of a conflicting pair")
-          \o If(C12_NoRedundantData(n, built), "C12", "redundant data edge")
+          \o If(IF dag THEN C12_NoRedundantDataC(built, C) ELSE C12_NoRedundantData(n, built), "C12", "redundant data edge")
           \o If(C13_Ranks(n, e.ranks, s.ue), "C13", "ranks")
           \o If(C16_Edges(built, s.ue), "C16", "accepted edges not intact")
           \o If(e.rank_pops < 0 \/ C18_PopBound(n, e.rank_pops), "C18", "rank pops over bound")
@@ -353,7 +353,7 @@ RunFlags(s, R, f) ==
   LET o == Obs(s, R) IN
      {"handout"}
   \cup (IF InFlight(o) # {} THEN {"handout_concurrent"} ELSE {})
-  \cup (IF \E g \in InFlight(o) : <<f, g>> \in D.C \/ <<g, f>> \in D.C THEN {"handout_related_inflight"} ELSE {})
+  \cup (IF \E g \in InFlight(o) : HasPath(D.C, f, g) \/ HasPath(D.C, g, f) THEN {"handout_related_inflight"} ELSE {})
   \cup (IF s.conf THEN {"handout_conflict_graph"} ELSE {})
   \cup (IF \E a \in 1..s.n : DirBefore(D.UC, o.order, a, f) THEN {"handout_dependent"} ELSE {})
   \cup (IF R.sig \/ R.cfg.pre_signal THEN {"handout_after_signal"} ELSE {})
@@ -423,15 +423,16 @@ Report(s, line, v) ==
   \A i \in DOMAIN v :
     PrintT("VIOL " \o ToJson([p |-> v[i].p, scn |-> s.scn, line |-> line, msg |-> v[i].msg]))
 
-Init == l = 1 /\ st = St0 /\ nviol = 0 /\ cov = Cov0 /\ TLCSet(2, D0)
+Init == l = 1 /\ st = St0 /\ nviol = 0 /\ cov = Cov0 /\ TLCSet(2, D0) /\ TLCSet(3, <<>>)
 
 Next ==
   /\ l <= Len(Rec)
-  /\ (Rec[l].ev = "reset" => TLCSet(2, D0))
+  /\ (Rec[l].ev = "reset" => TLCSet(2, D0) /\ TLCSet(3, [x \in 1..Rec[l].n |-> {}]))
   /\ (Rec[l].ev = "build" /\ "hook" \notin DOMAIN Rec[l] /\ Rec[l].panic = "" => TLCSet(2, DerivedOf(st, Rec[l])))
   /\ LET r == Apply(st, Rec[l]) IN
        /\ Report(IF Rec[l].ev = "reset" THEN r.st ELSE st, l, r.v)
        /\ st' = r.st
+       /\ ("ud" \in DOMAIN r => TLCSet(3, r.ud))
        /\ nviol' = nviol + Len(r.v)
   /\ cov' = CovNext(cov, st, Rec[l], l = Len(Rec))
   /\ (l = Len(Rec)) => PrintT("COV " \o ToJson([events |-> cov'.ev, traces |-> cov'.tr]))
